@@ -238,6 +238,11 @@ def refusal_reqs():
     add("enum Ty { A, #[default] B }", "impl", "one default variant")
     add("enum Ty<T> { A(T), #[default(_, bound(T))] B(T) }", "impl", "underscore with bounds on a variant")
     add("#[default(Ty::A)] enum Ty { A, B }", "impl", "type-level value, no variant marker")
+    # the variant rules hold also when a value on the type decides the result
+    add("#[default(Ty::C)] enum Ty { #[default] A, #[default] B, C }", "error", "type-level value and two default variants")
+    add("#[default(Ty::B)] enum Ty { #[default(5)] A(u8), B }", "error", "type-level value and a value on a variant")
+    add("#[default(Ty::B)] enum Ty { A, #[default] B, #[default(1)] C(u8) }", "error", "type-level value, two default variants, one with a value")
+    add("#[default(Ty::B)] enum Ty { #[default] A, B }", "impl", "type-level value and one default variant")
     add("#[default(Ty::new())] struct Ty(u8);", "impl", "type-level value on a struct")
     add("#[default(_, bound(T))] struct Ty<T>(T);", "impl", "type-level underscore with bound")
     add("struct Ty;", "impl", "unit struct")
@@ -261,7 +266,16 @@ def generic_cases():
         (f"macro_rules! mk {{ ($e:expr) => {{ pub enum Ty {{ A, #[default] B {{ #[default($e)] s: {S}, #[default(1 + $e.len() as u8 * 2)] n: u8 }} }} }} }}\nmk!(\"ab\");",
          "Ty", f"Ty::B {{ s: {S}::from(\"ab\"), n: 5 }}"),
     ]
-    return frag + [
+    blocky = [
+        # a type-level value that starts like a block and goes on with an operator (it is the tail of a function body)
+        ("impl ::core::ops::BitOr for Ty { type Output = Ty; fn bitor(self, r: Ty) -> Ty { Ty(self.0 | r.0) } }\npub const K32: u32 = 77;\n"
+         "/*HEAD*/#[default(if K32 > 1 { Ty(1) } else { Ty(2) } | Ty(4))] pub struct Ty(pub u8);", "Ty", "Ty(5)"),
+        ("impl ::core::ops::Sub<Ty> for () { type Output = Ty; fn sub(self, r: Ty) -> Ty { Ty(100 + r.0) } }\nimpl ::core::ops::Neg for Ty { type Output = Ty; fn neg(self) -> Ty { Ty(-self.0) } }\n"
+         "/*HEAD*/#[default({} - Ty(1))] pub struct Ty(pub i32);", "Ty", "Ty(101)"),
+        ("/*HEAD*/#[default(match 2u8 { 2 => Ty::B, _ => Ty::A } as u8 as u32 as usize * 0 + Ty::B as usize == 1)] pub struct Wrap(pub bool);\n#[derive(Clone, Copy)] pub enum Ty { A, B }\npub type Ty2 = Wrap;",
+         "Wrap", "Wrap(true)"),
+    ]
+    return frag + blocky[:2] + [
         ("pub struct Ty<const N: usize> { pub buf: [u8; N], #[default(7)] pub len: u8 }", "Ty<3>", "Ty::<3> { buf: [0u8; 3], len: 7 }"),
         ("pub struct Ty<T, const N: usize>(#[default(N as u8)] pub u8, pub [T; N]);", "Ty<i8, 2>", "Ty::<i8, 2>(2, [0i8; 2])"),
         ("pub enum Ty<const N: usize> { A, #[default] B([u16; N], #[default(\"s\")] ::std::string::String) }", "Ty<4>",
